@@ -165,6 +165,8 @@ Soft(c, s, o) ==
             \/ (c.kind = "deadline" /\ o.t >= c.deadline)
             \/ (c.kind # "default" /\ s.cancelled[q] /\ (IsWaitKind(c) \/ c.evictctx))
             \/ (c.kind = "queue" /\ c.qtimeout > 0 /\ s.since[q] >= 0 /\ o.t >= s.since[q] + c.qtimeout)}}
+    \* a token acquired on a waiter's behalf must have been accepted or given back by the time things are quiet
+    \cup {<<"conserve", p>> : p \in {q \in Procs(c) : s.transit[q] > 0}}
     \cup (IF c.kind = "queue" /\ o.q >= 0 /\ o.q # Cardinality(Asleep(o, c)) THEN {<<"backlog", "size">>} ELSE {})
     \cup (IF c.kind = "queue" /\ Cardinality(Asleep(o, c)) > c.qmax THEN {<<"backlog", "over">>} ELSE {})
 
